@@ -8,7 +8,8 @@ THEOREM_NOTE = ("Props/C09.lean: after force-quit no handler call is ever added 
 ASSUMPTIONS = ASSUME_SESSION
 RULE = ("[thorough tier adds the small-scope exhaustive enumeration of harness/gen/exhaustive.py: every loop program with a <= 2-action and a <= 1-action handler over a 10-action alphabet, 3 663 programs] loop and app programs with the stop request (raise ExitMainLoop, force_quit, close of the outermost loop, last screen closed, quit key) at every depth <= 5 and position, "
         "arbitrary pending content, further enqueues after force-quit; oracle: no handler invocation after the stop request, quit callback count and argument, run() returned "
-        "only with a stop cause, NothingScheduledError exactly when the stack is empty and not configured otherwise; non-trivial = a stop request with handlers pending")
+        "only with a stop cause, NothingScheduledError exactly when the stack is empty and not configured otherwise; non-trivial = a stop request with handlers pending"
+        ' Later rounds: closing the outermost loop from handlers and nested processing calls; oracle: nothing runs while no loop level is open; a raising closed() of the last screen (K6).')
 
 
 def gen_c09(rnd, sid):
